@@ -18,6 +18,8 @@ pub struct AdvDoc {
     every: Option<DocVal>,
     mix: Option<u64>,
     palette: Vec<DocVal>,
+    /// an ordinary document (no `*` / `#mix` descriptor): answered as it is
+    plain: Option<DObj>,
 }
 
 pub fn adversarial_values() -> Vec<DocVal> {
@@ -70,7 +72,8 @@ impl AdvDoc {
             Some(DocVal::Int(n)) => Some(*n as u64),
             _ => None,
         };
-        AdvDoc { every, mix, palette: adversarial_values() }
+        let plain = if every.is_none() && mix.is_none() && !d.0.is_empty() { Some(d.clone()) } else { None };
+        AdvDoc { every, mix, palette: adversarial_values(), plain }
     }
 }
 
@@ -83,6 +86,9 @@ impl Document for AdvDoc {
             let h = mix(hash_str(key), n);
             let i = (h % (self.palette.len() as u64 + 2)) as usize;
             return self.palette.get(i).map(|v| v.as_value());
+        }
+        if let Some(d) = &self.plain {
+            return tau_engine::Object::find(d, key);
         }
         None
     }
@@ -375,7 +381,8 @@ pub fn run(tier: &str, seed: u64) -> i32 {
         every kind, 64-bit extremes, NaN/inf, empty and 64 KiB strings, empty arrays, arrays of empty objects, 40-deep \
         objects - or with a per-key pseudo-random kind), and validate()d. Oracle: no panic; and an accepted \
         condition, when the reference parser can structure it, mentions only existing identifiers and applies \
-        and/or/not only to predicates. Non-trivial: accepted by the loader and not an unedited G rule; distinct by \
+        and/or/not only to predicates. Also wide or-groups (127-300 mappings / distinct fields) against documents that \
+        hit the far matrix columns, and 8 MiB pattern lists beyond the state limit of one automaton. Non-trivial: accepted by the loader and not an unedited G rule; distinct by \
         rule text."
         .into();
     report.assumptions = vec!["conditions the reference parser cannot structure (e.g. unbalanced parentheses tolerated by the engine) are checked for no-panic only".into()];
@@ -463,6 +470,22 @@ pub fn run(tier: &str, seed: u64) -> i32 {
         },
         judge,
         |_, rep| rep.label("source_valid_rule"),
+    );
+    // wide or-groups (hundreds of mappings / of distinct fields): matrix rows and column keys
+    // beyond one byte, against documents that hit the far columns
+    gen::drive(
+        &mut report,
+        23,
+        if tier == "thorough" { 400 } else { 40 },
+        || (gen::rule_wide_sized(vec![127, 128, 129, 130, 140, 160, 190, 194, 195, 255, 256, 257, 260, 300]), prop::collection::vec(any::<u16>(), 24)),
+        |(rule, picks): &(RuleSpec, Vec<u16>)| {
+            let mut c = Case::new("c03.valid");
+            c.rules = vec![rule.text()];
+            c.docs = gen::wide_docs(rule, picks);
+            vec![c]
+        },
+        judge,
+        |_, rep| rep.label("source_wide_rule"),
     );
     let _ = DArr::default();
     report.finish()
